@@ -342,7 +342,8 @@ mod mpp {
 			for _ in 0..k { equalize(&net); let c = net.open(0, RECV, 10_000_000, 1_000_000_000); routes.push((0, c)); }
 			let mut lsp_in = None;
 			if three {
-				for _ in 0..k2 { equalize(&net); let c = net.open(2, RECV, 10_000_000, 1_000_000_000); routes.push((2, c)); }
+				// different sizes: node 2 forwards over the channel with the smallest sufficient outbound limit (ties would be broken by hash-map order)
+				for j in 0..k2 { equalize(&net); let c = net.open(2, RECV, 10_000_000 - 3_000_000 * j as u64, 1_000_000_000); routes.push((2, c)); }
 				equalize(&net); lsp_in = Some(net.open(0, 2, 10_000_000, 1_000_000_000));
 			}
 			equalize(&net);
@@ -377,7 +378,8 @@ mod mpp {
 		}
 	}
 
-	struct Added { htlc_id: u64, amount: u64, cltv: u32, skim: Option<u64> }
+	/// `chan`: the channel the update_add_htlc was queued on
+	struct Added { htlc_id: u64, amount: u64, cltv: u32, skim: Option<u64>, chan: usize }
 
 	/// One single-path payment `from -> RECV` over channel `chan`, `amt` msat, with the given onion fields.
 	/// Returns the update_add_htlc the sender queued (nothing is delivered yet).
@@ -398,7 +400,7 @@ mod mpp {
 		if let Err(e) = r { return Err(format!("{:?}", e)); }
 		let mut found = None;
 		if let Some(q) = net.q.get(&(from, RECV)) {
-			for wire in q.iter() { if let Wire::Add(m) = wire { if m.payment_hash == hash && m.channel_id == c.2 { found = Some(Added { htlc_id: m.htlc_id, amount: m.amount_msat, cltv: m.cltv_expiry, skim: m.skimmed_fee_msat }); } } }
+			for wire in q.iter() { if let Wire::Add(m) = wire { if m.payment_hash == hash && m.channel_id == c.2 { found = Some(Added { htlc_id: m.htlc_id, amount: m.amount_msat, cltv: m.cltv_expiry, skim: m.skimmed_fee_msat, chan }); } } }
 		}
 		found.ok_or_else(|| "no update_add_htlc queued".to_string())
 	}
@@ -406,7 +408,9 @@ mod mpp {
 	/// One payment 0 -> 2 -> RECV whose last hop is node 2's intercept scid: node 2 raises HTLCIntercepted and the harness
 	/// releases it over channel `chan` (2 -> RECV) with `amt - skim` msat (`skim` < 0: more than the onion says).
 	/// Returns the update_add_htlc node 2 queued for the receiver (not delivered yet).
-	fn send_via_lsp(w: &mut World, chan: usize, hash: PaymentHash, onion: RecipientOnionFields, amt: u64, delta: u32, skim: i64) -> Result<Added, String> {
+	/// `declare` != 0: the skimmed_fee_msat TLV of the queued message is rewritten to (true skim + declare) - a last hop that
+	/// declares another fee than it took (the TLV is not covered by the commitment signatures).
+	fn send_via_lsp(w: &mut World, chan: usize, hash: PaymentHash, onion: RecipientOnionFields, amt: u64, delta: u32, skim: i64, declare: i64) -> Result<Added, String> {
 		const LSP: usize = 2;
 		let cin = w.lsp_in.ok_or_else(|| "no intercepting node".to_string())?;
 		w.pay_ctr += 1;
@@ -444,8 +448,11 @@ mod mpp {
 		if let Err(e) = net.nodes[LSP].node.forward_intercepted_htlc(iid, &c.2, net.ids[RECV], fwd) { let _ = net.nodes[LSP].node.fail_intercepted_htlc(iid); net.pump(LSP); return Err(format!("{:?}", e)); }
 		net.forward(LSP);
 		let mut add = None;
-		if let Some(q) = net.q.get(&(LSP, RECV)) {
-			for wire in q.iter() { if let Wire::Add(m) = wire { if m.payment_hash == hash && m.channel_id == c.2 { add = Some(Added { htlc_id: m.htlc_id, amount: m.amount_msat, cltv: m.cltv_expiry, skim: m.skimmed_fee_msat }); } } }
+		let ids: Vec<lightning::ln::types::ChannelId> = net.chans.iter().map(|c| c.2).collect();
+		if let Some(q) = net.q.get_mut(&(LSP, RECV)) {
+			// the node forwards over the channel to this peer it finds best (smallest sufficient outbound limit), not necessarily `chan`
+			for wire in q.iter_mut() { if let Wire::Add(m) = wire { if m.payment_hash == hash {
+				if declare != 0 { m.skimmed_fee_msat = Some((m.skimmed_fee_msat.unwrap_or(0) as i64 + declare).max(0) as u64); } let ci = ids.iter().position(|c| *c == m.channel_id).unwrap_or(usize::MAX); if ci != usize::MAX { add = Some(Added { htlc_id: m.htlc_id, amount: m.amount_msat, cltv: m.cltv_expiry, skim: m.skimmed_fee_msat, chan: ci }); } } } }
 		}
 		add.ok_or_else(|| "the intercepting node queued no update_add_htlc".to_string())
 	}
@@ -546,7 +553,8 @@ mod mpp {
 	/// `via`: Some(x) = through the intercepting node, which forwards `amt - x` (x > 0 skimmed fee, x < 0 over-payment);
 	/// only honoured when `route` is one of its channels. `strict`: the receiver refuses underpaying HTLCs on that channel
 	/// while this part arrives (`accept_underpaying_htlcs = false` via update_channel_config)
-	struct PartSpec { route: usize, amt: u64, total: u64, delta: u32, sec: usize, tlv: Tlv, via: Option<i64>, strict: bool }
+	/// `declare`: added to the skimmed fee the intercepting node declares in its message (0 = the truth)
+	struct PartSpec { route: usize, amt: u64, total: u64, delta: u32, sec: usize, tlv: Tlv, via: Option<i64>, strict: bool, declare: i64 }
 
 	#[derive(Clone, Debug)]
 	struct Held { id: u64, value: u64, intended: u64, skim: u64, total: u64, cltv: u32 }
@@ -645,8 +653,10 @@ mod mpp {
 			let onion = self.onion(p, self.secrets[p.sec % self.secrets.len()]);
 			let hash = self.hash;
 			let sent = guarded(AssertUnwindSafe(|| {
-				Scn::set_strict(w, chan, strict);
-				match via { Some(x) => send_via_lsp(w, chan, hash, onion, p.amt, p.delta, x), None => send_raw(w, from, chan, hash, onion, p.amt, p.delta) }
+				// (the intercepting node may pick any of its channels to the receiver: switch all of them)
+				let its: Vec<usize> = w.routes.iter().filter(|r| r.0 == from).map(|r| r.1).collect();
+				for c in its { Scn::set_strict(w, c, strict); }
+				match via { Some(x) => send_via_lsp(w, chan, hash, onion, p.amt, p.delta, x, p.declare), None => send_raw(w, from, chan, hash, onion, p.amt, p.delta) }
 			}));
 			(chan, via, strict, sent)
 		}
@@ -654,12 +664,13 @@ mod mpp {
 		fn op_part(&mut self, w: &mut World, rec: &mut Rec, p: &PartSpec) -> PartOut {
 			if self.dead { return PartOut::Abort; }
 			let (tpos, epos) = (w.net.trace.len(), w.net.events[RECV].len());
-			let (chan, via, strict, sent) = self.send_spec(w, p);
+			let (_, via, strict, sent) = self.send_spec(w, p);
 			let add = match sent {
 				Ok(Ok(a)) => a,
-				Ok(Err(_)) => { self.dead = true; rec.discarded += 1; return PartOut::Abort; },
+				Ok(Err(e)) => { if std::env::var("C04MPP_WHY").is_ok() { eprintln!("SENDERR {} via {:?} [{}] {}", e, via, self.kind, self.history()); } self.dead = true; rec.discarded += 1; return PartOut::Abort; },
 				Err(e) => { if std::env::var("C04MPP_WHY").is_ok() { eprintln!("SENDPANIC {} via {:?} [{}] {}", e, via, self.kind, self.history()); } self.dead = true; w.bad = true; rec.discarded += 1; return PartOut::Abort; },
 			};
+			let chan = add.chan;
 			let id = w.rank[chan] * 1_000_000 + add.htlc_id;
 			let ev = p.tlv.even();
 			let tag = (p.sec % self.secrets.len()) as u64 * 1000 + match ev { None => 1, Some(v) => 2 + v as u64 };
@@ -677,7 +688,7 @@ mod mpp {
 				let want_low = if allow { add.amount.saturating_add(add.skim.unwrap_or(0)) < p.amt } else { add.amount < p.amt };
 				let admit = format!("admit {} {} {} {}", allow as u8, p.amt, add.amount, skim_tok);
 				if low != want_low { rec.oracle_fail(format!("[{}] `{}` -> {}: an HTLC carrying {} msat (+ skimmed fee {:?}) for an onion amount of {} was {} with accept_underpaying_htlcs = {}; ops: {}", self.kind, admit, if low { "low" } else { "ok" }, add.amount, add.skim, p.amt, if low { "refused (FinalIncorrectHTLCAmount)" } else { "let through to the payment logic" }, allow, self.history())); }
-				rec.case(&admit, if low { "low" } else { "ok" }, &format!("admit:{}:{}:{}", if via.is_none() { "direct" } else if add.amount > p.amt { "overpaid" } else if add.skim.is_some() { "skimmed" } else { "exact" }, if allow { "underpay-ok" } else { "strict" }, if low { "low" } else { "ok" }), true);
+				rec.case(&admit, if low { "low" } else { "ok" }, &format!("admit:{}:{}:{}", if via.is_none() { "direct" } else if add.amount > p.amt { "overpaid" } else if p.declare < 0 { "skimmed-underdeclared" } else if p.declare > 0 { "skimmed-overdeclared" } else if add.skim.is_some() { "skimmed" } else { "exact" }, if allow { "underpay-ok" } else { "strict" }, if low { "low" } else { "ok" }), true);
 			}
 			if low {
 				if !seen.claimable.is_empty() || !seen.fulfils.is_empty() || !seen.claimed.is_empty() { rec.oracle_fail(format!("[{}] an HTLC refused for its amount produced {}; ops: {}", self.kind, seen.answer(), self.history())); }
@@ -1012,7 +1023,9 @@ mod mpp {
 				let mut route = self.rng.below(self.routes as u64) as usize;
 				let mut via = None; let mut strict = false;
 				if !self.lsp.is_empty() && self.rng.chance(1, 2) { route = *self.rng.pick(&self.lsp); via = Some(self.skim(*a)); strict = self.rng.chance(1, 14); }
-				out.push(PartSpec { route, amt: *a, total, delta: if same_delta { d0 } else { self.delta() }, sec: 0, tlv, via, strict });
+				// 1 in 7 skimming forwards declares one msat less / one more / nothing / much more than was taken
+				let declare = match via { Some(x) if x > 0 && self.rng.chance(1, 7) => match self.rng.below(4) { 0 => -1, 1 => 1, 2 => -x, _ => 1 + self.rng.below(100_000) as i64 }, _ => 0 };
+				out.push(PartSpec { route, amt: *a, total, delta: if same_delta { d0 } else { self.delta() }, sec: 0, tlv, via, strict, declare });
 			}
 			out
 		}
@@ -1025,7 +1038,9 @@ mod mpp {
 				if !self.lsp.is_empty() {
 					p.route = *self.rng.pick(&self.lsp);
 					let sk = self.skim(p.amt);
-					p.via = Some(if over { -(sk.abs().max(1)) } else if self.rng.chance(1, 6) { sk } else { sk.abs() });
+					let keep = (sk.unsigned_abs()).min(p.amt.saturating_sub(1000)) as i64;
+					p.via = Some(if over { -(sk.abs().max(1)) } else if self.rng.chance(1, 6) { sk } else { keep });
+					p.declare = match p.via { Some(x) if x > 0 && self.rng.chance(1, 7) => match self.rng.below(4) { 0 => -1, 1 => 1, 2 => -x, _ => 1 + self.rng.below(100_000) as i64 }, _ => 0 };
 				}
 			}
 			ps
@@ -1415,14 +1430,14 @@ mod mpp {
 		let mut s = Scn::new(&mut w, &mut scratch, rng, "probe", None, false, 7200);
 		let total = 300_000;
 		// the surviving part and the late part share a channel, so that the set stays in (channel_id, htlc_id) order
-		let a = PartSpec { route: 0, amt: 100_000, total, delta: 60, sec: 0, tlv: Tlv::No, via: None, strict: false };
-		let b = PartSpec { route: 1, amt: 200_000, total, delta: 66, sec: 0, tlv: Tlv::No, via: None, strict: false };
+		let a = PartSpec { route: 0, amt: 100_000, total, delta: 60, sec: 0, tlv: Tlv::No, via: None, strict: false, declare: 0 };
+		let b = PartSpec { route: 1, amt: 200_000, total, delta: 66, sec: 0, tlv: Tlv::No, via: None, strict: false, declare: 0 };
 		s.op_part(&mut w, &mut scratch, &a);
 		if s.op_part(&mut w, &mut scratch, &b) != PartOut::Claimable { std::mem::forget(w); return "set-up failed: the two parts did not become claimable".into(); }
 		let d = s.deadline.unwrap_or(0);
 		s.blocks_to(&mut w, &mut scratch, d);
 		if s.held.len() != 1 { std::mem::forget(w); return format!("set-up failed: {} parts left after the deadline block", s.held.len()); }
-		let c = PartSpec { route: 1, amt: 50_000, total, delta: 70, sec: 0, tlv: Tlv::No, via: None, strict: false };
+		let c = PartSpec { route: 1, amt: 50_000, total, delta: 70, sec: 0, tlv: Tlv::No, via: None, strict: false, declare: 0 };
 		let o = s.op_part(&mut w, &mut scratch, &c);
 		if o != PartOut::Held { std::mem::forget(w); return format!("set-up failed: the late part was {:?}", o); }
 		let (tpos, epos) = (w.net.trace.len(), w.net.events[RECV].len());
@@ -1445,8 +1460,8 @@ mod mpp {
 		let total = 300_000;
 		// first the channel with the larger channel_id, then the smaller one
 		let hi = if w.rank[w.routes[0].1] > w.rank[w.routes[1].1] { 0 } else { 1 };
-		let a = PartSpec { route: hi, amt: 100_000, total, delta: 80, sec: 0, tlv: Tlv::No, via: None, strict: false };
-		let b = PartSpec { route: 1 - hi, amt: 100_000, total, delta: 80, sec: 0, tlv: Tlv::No, via: None, strict: false };
+		let a = PartSpec { route: hi, amt: 100_000, total, delta: 80, sec: 0, tlv: Tlv::No, via: None, strict: false, declare: 0 };
+		let b = PartSpec { route: 1 - hi, amt: 100_000, total, delta: 80, sec: 0, tlv: Tlv::No, via: None, strict: false, declare: 0 };
 		if s.op_part(&mut w, &mut scratch, &a) != PartOut::Held || s.op_part(&mut w, &mut scratch, &b) != PartOut::Held { std::mem::forget(w); return "set-up failed: the two parts were not held".into(); }
 		let (tpos, epos) = (w.net.trace.len(), w.net.events[RECV].len());
 		let pre = s.preimage;
@@ -1466,7 +1481,7 @@ mod mpp {
 		let mut w = match build_world(rng, true) { Ok(w) => w, Err(e) => return format!("could not build the network: {}", short(&e)) };
 		let mut scratch = Rec::new(&probe_dir(), "probe2");
 		let mut s = Scn::new(&mut w, &mut scratch, rng, "probe", None, false, 7200);
-		let a = PartSpec { route: 0, amt: 100_000, total: 100_000, delta: 100, sec: 0, tlv: Tlv::No, via: None, strict: false };
+		let a = PartSpec { route: 0, amt: 100_000, total: 100_000, delta: 100, sec: 0, tlv: Tlv::No, via: None, strict: false, declare: 0 };
 		if s.op_part(&mut w, &mut scratch, &a) != PartOut::Claimable { std::mem::forget(w); return "set-up failed: the part did not become claimable".into(); }
 		let mut out = "survived 256 ticks; the payment stayed claimable".to_string();
 		for i in 1..=256u32 {
